@@ -702,6 +702,9 @@ def run(prog, chk, tier):
                        "by path facts (length guards, truthiness, membership, successful earlier lookups, certainly-present dictionary keys) or by audited table invariants. "
                        "What escapes must be a FormatError, a ValueError or (path I/O) an OSError. A typed sub-rule covers the BF2 tagged union; while-loops must make progress; "
                        "no reachable code writes library globals.")
+    from rules import state as _state
+
+    _state.library_state_rules(prog, chk, "C14")
     an = make_analysis(prog)
     table = table_discharges(prog, chk, "C14")
     # the AES summary is licensed by the concrete-control interpretation of C16 (no failing or symbolic index)
